@@ -94,6 +94,7 @@ class State:
         self.model = None      # a model known to satisfy pc (or None)
         self.known = {}        # ast id -> (expr, bool): branch conditions already decided on this path
         self.pending_known = []  # decided during the current instruction; committed when it completes
+        self.pending_asserts = []  # (label, cond) recorded since the last change of the path condition
 
     def copy(self):
         s = State.__new__(State)
@@ -113,6 +114,7 @@ class State:
         s.model = self.model
         s.known = dict(self.known)
         s.pending_known = []
+        s.pending_asserts = list(self.pending_asserts)
         return s
 
 
